@@ -356,6 +356,9 @@ def check(pid, spec, tier, seed, replay, t0):
     broken = []
     for ob in spec.get("obligations", []):
         needs = ob["facts"]
+        if isinstance(needs, str) and needs.startswith("module:"):
+            mod = needs.split(":", 1)[1]
+            needs = [n for n, f in facts.items() if f["module"] == mod and n.startswith(("skel_", "lit_"))]
         unrec = [n for n in needs if n not in facts or facts[n]["value"] == ""]
         if unrec:
             obligations.append({"name": ob["name"], "status": "not-checked", "detail": "source shape not recognised for " + ",".join(unrec)})
